@@ -145,20 +145,18 @@ theorem maxElem_safe (n : Nat) (hn : 0 < n) (x : Array Int) (hx : x.size = n) : 
 def RInv (n : Nat) (st : VC) : Prop :=
   st.1.size = n ∧ 0 ≤ st.2.2 ∧ ∀ k, k < n → st.1.getD k 0 = -1 ∨ (0 ≤ st.1.getD k 0 ∧ st.1.getD k 0 < st.2.2)
 
-/-- **one round** (parallel independent set with `max_iters = 1`, un-marking, first fit) with any weights `y` -/
-theorem parRound_safe (w : WOps ρ) {n : Nat} {ap aj : Array Int} (hA : WFm (patS n ap aj) n) (y : Array ρ) (hy : y.size = n)
-    (st : VC) (hst : RInv n st) : Safe (parRound w n ap aj y st) (RInv n) := by
+/-- one round, given what the call of the parallel independent set delivers (`E` is an extra fact about its result that is handed
+through): the state invariant, and the coloured nodes of the new state are those with a non-negative mark after the call -/
+theorem parRound_gen (w : WOps ρ) {n : Nat} {ap aj : Array Int} (hA : WFm (patS n ap aj) n) (y : Array ρ) (hy : y.size = n)
+    (st : VC) (hst : RInv n st) (E : Array Int × Int → Prop)
+    (hmis : Safe (orFault (misParallel w n ap aj (-1) st.2.2 (-2) st.1 y 1 1)) (fun out =>
+      (out.1.size = n ∧ Upd2 (-1) (-2) st.2.2 st.1 out.1 ∧ Sep n ap aj (-1) st.2.2 out.1) ∧ E out)) :
+    Safe (parRound w n ap aj y st) (fun st' => RInv n st' ∧ ∃ out : Array Int × Int, E out ∧ st'.2.1 = st.2.1 + out.2 ∧
+      ∀ k, k < n → nonneg (st'.1.getD k 0) = nonneg (out.1.getD k 0)) := by
   obtain ⟨h1, h2, h3⟩ := hst
   unfold parRound
-  have hsep0 : Sep n ap aj (-1) st.2.2 st.1 := by
-    intro k hk hkK
-    rcases h3 k hk with e | ⟨_, e⟩ <;> omega
-  refine Safe.bind (P := fun out : Array Int × Int => out.1.size = n ∧ Upd2 (-1) (-2) st.2.2 st.1 out.1 ∧
-      Sep n ap aj (-1) st.2.2 out.1) ?_ (fun r hr => ?_)
-  · apply orFault_safe
-    obtain ⟨r, e, hr⟩ := misParallel_bounded w hA (-1) st.2.2 (-2) st.1 h1 y hy 1 (by omega)
-    exact ⟨r, e, Safe.mono hr (fun out h => ⟨h.1, h.2.1, h.2.2 (by omega) (by omega) hsep0⟩)⟩
-  obtain ⟨r1, r2, r3⟩ := hr
+  refine Safe.bind hmis (fun r hr => ?_)
+  obtain ⟨⟨r1, r2, r3⟩, hE⟩ := hr
   refine Safe.bind (resetF_safe n r.1 r1) (fun x2 hx2 => ?_)
   obtain ⟨s2, v2⟩ := hx2
   -- values after the un-marking
@@ -191,15 +189,37 @@ theorem parRound_safe (w : WOps ρ) {n : Nat} {ap aj : Array Int} (hA : WFm (pat
     intro hbad
     exact (r3 k hk (hK k hk hkK) jj j1 j2 hne).1 (hK _ hjn hbad)
   refine Safe.bind (firstFit_safe hA st.2.2 h2 x2 s2 hle hsepK) (fun x3 hx3 => ?_)
-  refine Safe.pure ⟨hx3.1, by show 0 ≤ st.2.2 + 1; omega, fun k hk => ?_⟩
-  show x3.getD k 0 = -1 ∨ (0 ≤ x3.getD k 0 ∧ x3.getD k 0 < st.2.2 + 1)
-  rcases hx3.2 k hk with e | ⟨_, e1, e2⟩
-  · rw [e]
-    rcases hval k hk with e' | e' | e'
-    · exact Or.inl e'
+  refine Safe.pure ⟨⟨hx3.1, by show 0 ≤ st.2.2 + 1; omega, fun k hk => ?_⟩, ⟨r, hE, rfl, fun k hk => ?_⟩⟩
+  · show x3.getD k 0 = -1 ∨ (0 ≤ x3.getD k 0 ∧ x3.getD k 0 < st.2.2 + 1)
+    rcases hx3.2 k hk with e | ⟨_, e1, e2⟩
+    · rw [e]
+      rcases hval k hk with e' | e' | e'
+      · exact Or.inl e'
+      · exact Or.inr (by omega)
+      · exact Or.inr (by omega)
     · exact Or.inr (by omega)
-    · exact Or.inr (by omega)
-  · exact Or.inr (by omega)
+  · show nonneg (x3.getD k 0) = nonneg (r.1.getD k 0)
+    have e2 : nonneg (x2.getD k 0) = nonneg (r.1.getD k 0) := by
+      rw [v2 k hk]
+      by_cases hm : r.1.getD k 0 = -2
+      · rw [if_pos hm, hm]; rfl
+      · rw [if_neg hm]
+    rcases hx3.2 k hk with e | ⟨e0, e1, _⟩
+    · rw [e]; exact e2
+    · rw [← e2, e0]
+      unfold nonneg
+      rw [decide_eq_true e1, decide_eq_true h2]
+
+/-- **one round** (parallel independent set with `max_iters = 1`, un-marking, first fit) with any weights `y` -/
+theorem parRound_safe (w : WOps ρ) {n : Nat} {ap aj : Array Int} (hA : WFm (patS n ap aj) n) (y : Array ρ) (hy : y.size = n)
+    (st : VC) (hst : RInv n st) : Safe (parRound w n ap aj y st) (RInv n) := by
+  have hsep0 : Sep n ap aj (-1) st.2.2 st.1 := by
+    intro k hk hkK
+    rcases hst.2.2 k hk with e | ⟨_, e⟩ <;> (have := hst.2.1; omega)
+  refine Safe.mono (parRound_gen w hA y hy st hst (fun _ => True) ?_) (fun _ h => h.1)
+  apply orFault_safe
+  obtain ⟨r, e, hr⟩ := misParallel_bounded w hA (-1) st.2.2 (-2) st.1 hst.1 y hy 1 (by omega)
+  exact ⟨r, e, Safe.mono hr (fun out h => ⟨⟨h.1, h.2.1, h.2.2 (by have := hst.2.1; omega) (by omega) hsep0⟩, trivial⟩)⟩
 
 /-! ### `vertex_coloring_jones_plassmann` -/
 
@@ -231,11 +251,11 @@ theorem jpWeights_safe (w : WOps ρ) {n : Nat} {ap aj : Array Int} (hA : WFm (pa
   refine Safe.bind (rd_safe ap i i0 (by rw [hsz]; omega)) (fun a0 _ => ?_)
   exact Safe.mono (wr_safe z' i _ i0 (by rw [hz']; omega)) (fun z'' h => by rw [h, hz'])
 
-/-- **`vertex_coloring_jones_plassmann`**: any structurally valid `n × n` pattern with `n > 0` (symmetric or not, self loops,
+/-- **`vertex_coloring_jones_plassmann`**: any structurally valid `n × n` pattern, `n = 0` included (symmetric or not, self loops,
 duplicates), `x`, `z` of length `n`, any weights, any number of rounds: a run that returns made no access outside `Ap`,
-`Aj`, `x`, `z` and the bits of `mask` (termination: `coloringJP_total`, property C18).  For `n = 0` the final
-`*std::max_element(x, x)` reads `x[0]`. -/
-theorem vertexColoringJP_safe (w : WOps ρ) {n : Nat} {ap aj : Array Int} (hA : WFm (patS n ap aj) n) (hn : 0 < n)
+`Aj`, `x`, `z` and the bits of `mask` (termination within `n` rounds: `vertexColoringJP_total` in `Proofs/ExtC17R4Term.lean`).  For `n = 0` the kernel
+returns `-1` before `*std::max_element(x, x)`. -/
+theorem vertexColoringJP_safe (w : WOps ρ) {n : Nat} {ap aj : Array Int} (hA : WFm (patS n ap aj) n)
     (x : Array Int) (hx : x.size = n) (z : Array ρ) (hz : z.size = n) (fuel : Nat) :
     ∀ r, vertexColoringJP w n ap aj x z fuel = some r → Safe r (fun out => out.1.size = n ∧ out.2.1.size = n) := by
   intro r hr
@@ -260,7 +280,10 @@ theorem vertexColoringJP_safe (w : WOps ρ) {n : Nat} {ap aj : Array Int} (hA : 
     have h0 : Safe (pre >>= fun p => pure ((p.1, 0, 0) : VC)) (RInv n) :=
       Safe.bind hpre (fun p hp' => Safe.pure ⟨hp'.1.1, Int.le_refl 0, fun k hk => Or.inl (hp'.1.2 k hk)⟩)
     refine Safe.bind (jpWhile_safe w hA pre.val.2 hpre.2.2 fuel _ h0 r0 hw) (fun st hst => ?_)
-    refine Safe.bind (maxElem_safe n hn st.1 hst.1) (fun m _ => Safe.pure ⟨hst.1, hpre.2.2⟩)
+    by_cases hn0 : n = 0
+    · rw [if_pos hn0]; exact Safe.pure ⟨hst.1, hpre.2.2⟩
+    · rw [if_neg hn0]
+      exact Safe.bind (maxElem_safe n (by omega) st.1 hst.1) (fun m _ => Safe.pure ⟨hst.1, hpre.2.2⟩)
 
 /-! ### `vertex_coloring_LDF` -/
 
@@ -312,8 +335,8 @@ theorem ldfWhile_safe (w : WOps ρ) {n : Nat} {ap aj : Array Int} (hA : WFm (pat
     · cases hr; exact hst
 
 /-- **`vertex_coloring_LDF`**: as for Jones-Plassmann; the private vector `weights` has `n` entries (termination:
-`coloringLDF_total`, property C18) -/
-theorem vertexColoringLDF_safe (w : WOps ρ) {n : Nat} {ap aj : Array Int} (hA : WFm (patS n ap aj) n) (hn : 0 < n)
+`vertexColoringLDF_total` in `Proofs/ExtC17R4Term.lean`) -/
+theorem vertexColoringLDF_safe (w : WOps ρ) {n : Nat} {ap aj : Array Int} (hA : WFm (patS n ap aj) n)
     (x : Array Int) (hx : x.size = n) (y : Array ρ) (hy : y.size = n) (fuel : Nat) :
     ∀ r, vertexColoringLDF w n ap aj x y fuel = some r → Safe r (fun out => out.1.size = n) := by
   intro r hr
@@ -330,6 +353,9 @@ theorem vertexColoringLDF_safe (w : WOps ρ) {n : Nat} {ap aj : Array Int} (hA :
       Safe.bind (fillN_safe n (-1) x hx) (fun x0 hx0 =>
         Safe.pure ⟨⟨hx0.1, Int.le_refl 0, fun k hk => Or.inl (hx0.2 k hk)⟩, by simp⟩)
     refine Safe.bind (ldfWhile_safe w hA y hy fuel _ h0 r0 hw) (fun st hst => ?_)
-    exact Safe.bind (maxElem_safe n hn st.1.1 hst.1.1) (fun m _ => Safe.pure hst.1.1)
+    by_cases hn0 : n = 0
+    · rw [if_pos hn0]; exact Safe.pure hst.1.1
+    · rw [if_neg hn0]
+      exact Safe.bind (maxElem_safe n (by omega) st.1.1 hst.1.1) (fun m _ => Safe.pure hst.1.1)
 
 end PyamgV.C17R4
